@@ -56,7 +56,7 @@ ASSUMPTIONS = ['whitening and the adjusted likelihoods are driven with >= 2 summ
                'multivariate_normal calls']
 CONFIG = {
     'quick': {'shards': 16, 'cases': 40, 'timeout': 600, 'floor': 128},
-    'thorough': {'shards': 32, 'cases': 700, 'timeout': 3000, 'floor': 4480},
+    'thorough': {'shards': 32, 'cases': 1400, 'timeout': 5400, 'floor': 8960},
 }
 REQUIRED = ['lik_std_checked', 'lik_whiten_checked', 'lik_warton_checked', 'lik_whiten_warton_checked', 'lik_go_checked',
             'lik_go_indefinite_checked', 'lik_mean_checked', 'lik_variance_checked', 'lik_checked_inside_runs',
